@@ -4,6 +4,7 @@ package main
 import (
 	"fmt"
 	"os"
+	"time"
 
 	"verif/kit"
 	"verif/props"
@@ -15,6 +16,18 @@ func main() {
 		os.Exit(2)
 	}
 	id := os.Args[1]
+	switch id {
+	case "C08-explore", "C08-race", "C09-child":
+		// a child whose coordinator was killed (timeout, OOM killer) must not linger
+		go func(pp int) {
+			for {
+				time.Sleep(2 * time.Second)
+				if os.Getppid() != pp {
+					os.Exit(3)
+				}
+			}
+		}(os.Getppid())
+	}
 	switch id {
 	case "C08-explore":
 		os.Exit(props.C08ExploreMain(os.Args[2]))
